@@ -617,8 +617,8 @@ Section DetailedSound.
         apply IH; [exact Hp|]. intros u y Hu Hy. apply Hs; right; assumption.
   Qed.
 
-  Lemma zlen_cons_pos {X} (x : X) r : (zlen (x :: r) =? 0) = false.
-  Proof. unfold zlen. cbn [length]. apply Z.eqb_neq. lia. Qed.
+  Lemma zlen_cons_pos {X} (x : X) r : (zlen (x :: r) <=? 0) = false.
+  Proof. unfold zlen. cbn [length]. apply Z.leb_gt. lia. Qed.
 
   Lemma asg_mk_variant k us : A k (mk_variant us) = true -> forall u, In u us -> A k u = true.
   Proof.
